@@ -37,6 +37,9 @@ pub struct Case {
     /// honest nodes (indices) all of whose statements are negative reports
     #[serde(default)]
     neg_only: Vec<u16>,
+    /// nobody receives statistics at all (equal: none); identities exist for the engine only through statements
+    #[serde(default)]
+    no_stats: bool,
 }
 
 fn hid(i: u16) -> NodeId {
@@ -64,6 +67,13 @@ fn run_case(c: &Case) -> Verdict {
         let pre: HashSet<NodeId> = (0..a).map(hid).collect();
         let e = EigenTrustEngine::new(pre);
         let neg: HashSet<u16> = c.neg_only.iter().map(|x| x % h).collect();
+        // identities the engine has heard of (the population the property speaks about)
+        let mut known_h: HashSet<u16> = (0..a).collect();
+        let mut known_s: HashSet<u16> = HashSet::new();
+        for (x, y, _) in &c.honest_edges {
+            known_h.insert(x % h);
+            known_h.insert(y % h);
+        }
         for (x, y, ok) in &c.honest_edges {
             for _ in 0..c.repeat.max(1) {
                 e.update_local_trust(&hid(x % h), &hid(y % h), *ok && !neg.contains(&(x % h))).await;
@@ -121,24 +131,41 @@ fn run_case(c: &Case) -> Verdict {
         }
         for (x, y) in &c.sybil_out {
             e.update_local_trust(&sid(x % s), &hid(y % h), true).await;
+            known_s.insert(x % s);
+            known_h.insert(y % h);
         }
-        // every identity must be known to the engine; equal statistics for all
-        let reports = c.equal_stats % 4;
+        for i in 0..s {
+            if sy.iter().any(|(x, y)| *x == sid(i) || *y == sid(i)) {
+                known_s.insert(i);
+            }
+        }
+        // equal statistics for all: the same number of reports for everybody - or, in the `no_stats` mode, none
+        // for anybody (then only identities that occur in a statement, and the anchors, exist for the engine)
+        let reports = if c.no_stats { 0 } else { (c.equal_stats % 4).max(1) };
         for i in 0..h {
-            for _ in 0..reports.max(1) {
+            for _ in 0..reports {
                 e.update_node_stats(&hid(i), NodeStatisticsUpdate::CorrectResponse).await;
             }
         }
         for i in 0..s {
-            for _ in 0..reports.max(1) {
+            for _ in 0..reports {
                 e.update_node_stats(&sid(i), NodeStatisticsUpdate::CorrectResponse).await;
             }
+        }
+        let (h_pop, s_pop) = if c.no_stats { (known_h.len() as u16, known_s.len() as u16) } else { (h, s) };
+        if s_pop == 0 {
+            v.class("no_unvouched_identity_known");
+            return v;
         }
         let m = e.compute_global_trust().await;
         let total: f64 = m.values().sum();
         let syb: f64 = (0..s).map(|i| m.get(&sid(i)).copied().unwrap_or(0.0)).sum();
-        let n = (h + s) as f64;
+        let n = (h_pop + s_pop) as f64;
         let site = "compute_global_trust";
+        let (h, s) = (h_pop, s_pop);
+        if c.no_stats {
+            v.class("nobody_has_statistics");
+        }
         if total > 0.0 {
             let share = syb / total;
             let bound = (1.0 / 7.0) * (s as f64 / n) + 1e-9;
@@ -197,7 +224,7 @@ fn case(max_h: u16, max_s: u16) -> impl Strategy<Value = Case> {
         ];
         // negative-only reporters: none, the first few nodes (= the anchors), or a random subset
         let neg = prop_oneof![3 => Just(Vec::new()), 2 => (1u16..=4).prop_map(|k| (0..k).collect::<Vec<u16>>()), 1 => prop::collection::vec(0..h, 0..8), 1 => Just((0..h).collect::<Vec<u16>>())];
-        (prop_oneof![3 => 1u16..=3, 2 => 1u16..=50], honest, 1u8..4, pattern, prop::collection::vec((0..s, 0..h), 0..6), 0u8..4, neg).prop_map(move |(anchors, honest_edges, repeat, pattern, sybil_out, equal_stats, neg_only)| Case { h, anchors, s, honest_edges, repeat, pattern, sybil_out, equal_stats, neg_only })
+        (prop_oneof![3 => 1u16..=3, 2 => 1u16..=50], honest, 1u8..4, pattern, prop::collection::vec((0..s, 0..h), 0..6), 0u8..4, neg, prop::bool::weighted(0.25)).prop_map(move |(anchors, honest_edges, repeat, pattern, sybil_out, equal_stats, neg_only, no_stats)| Case { h, anchors, s, honest_edges, repeat, pattern, sybil_out, equal_stats, neg_only, no_stats })
     })
 }
 
